@@ -6,6 +6,7 @@ import (
 
 	"verif/sim/enga"
 	"verif/sim/engb"
+	"verif/sim/engc"
 	"verif/sim/kernel"
 )
 
@@ -94,6 +95,7 @@ var assumeB = []string{
 const ruleB = "runs are plans generated from mix64(VERIF_SEED, property, run index): 1-5 real clients, 1-2 datatypes of mixed kinds, entry by create / subscribe / subscribe-or-create incl. late subscribers, 15-40 (quick) / 30-120 (thorough) events (local calls, transactions, Sync, simultaneous Syncs, time jumps from 1 ms to a day, plus the property's fault events), then heal + drain. A run counts as non-trivial when %s; distinct = distinct trace hash (sequence of events and of every scheduling/fault decision)."
 
 func init() {
+	props["C20"] = propC20
 	for id, p := range propsB {
 		p.Engine = "B"
 		p.Components = compB
@@ -127,6 +129,8 @@ func regenPlan(pi *propInfo, prop, tier string, seed uint64) *kernel.Plan {
 		return enga.Gen(prop, tier, seed)
 	case "B":
 		return engb.Gen(prop, tier, seed)
+	case "C":
+		return engc.Gen(prop, tier, seed)
 	}
 	return nil
 }
@@ -137,6 +141,8 @@ func simplifications(p *kernel.Plan) []*kernel.Plan {
 		return enga.Simplify(p)
 	case "B":
 		return engb.Simplify(p)
+	case "C":
+		return engc.Simplify(p)
 	}
 	return nil
 }
@@ -144,6 +150,20 @@ func simplifications(p *kernel.Plan) []*kernel.Plan {
 func sprintf(f string, a ...interface{}) string { return fmtSprintf(f, a...) }
 
 var fmtSprintf = fmt.Sprintf
+
+var propC20 = &propInfo{Engine: "C", Level: "exploration", Race: false, QuickS: 50, ThoroughS: 900, PerRunS: 40,
+	Rule:    "runs are plans generated from mix64(VERIF_SEED, property, run index): 2-4 (quick) / 2-8 (thorough) goroutines with 2-12 scripted calls each (increments with distinct power-of-two deltas, gets, puts of unique values, removes, inserts of unique tags, transactions incl. failing ones whose body can be pre-empted between its calls) on ONE shared Counter / Map / List object, plus a sync goroutine calling Sync() against a model server that also feeds operations of a remote replica; a seeded scheduler decides at every scheduling point (hook H6: lock acquisition, the begin/unlock windows of the transaction layer, pack creation and application) who runs next. Non-trivial: >= 2 goroutines and > 10 scheduling decisions; distinct = distinct hash of the sequence of (task, site) decisions.",
+	Oracles: []string{"C20.no-panic / process-crash (incl. runtime fatal errors such as unlock of an unlocked mutex)", "C20.no-deadlock", "C20.queued-once-in-order", "C20.tx-not-interleaved", "C20.no-lost-update (shared object == replay of the stream; counter == sum)", "C20.linearizable (porcupine, counter and map histories)", "C20.no-race (race detector; the baton is invisible to it)"},
+	Assumptions: []string{
+		"pre-emption happens only at the scheduling points compiled in under the tag verif (H6) and at calls the harness makes; code between two points runs atomically, so the explored interleavings are real ones but not all of them",
+		"the hand-off between goroutines is a raw futex in //go:norace code, invisible to the race detector; every reported race is between accesses the program itself does not order",
+		"the server is a 40-line model (one log, duplicate rejection by client sequence number); MongoDB and the real server are engine B's business",
+	},
+	Components: map[string]string{
+		"orda datatypes, transaction/wired layers, clientImpl, DatatypeManager, SyncManager (manual mode)": "real code, with H6 scheduling points",
+		"server":    "model: one log per datatype, pull-before-push answer, duplicate rejection",
+		"scheduler": "sim/engc: one goroutine runs at a time; futex baton; seeded choice",
+	}}
 
 var propsB = map[string]*propInfo{
 	"C05": {Rule: sprintf(ruleB, "at least two clients pushed and at least one exchange both pushed and pulled"),
